@@ -440,6 +440,71 @@ def _swap_rand(ck, prog):
                       note="set algebra evaluated over {positive, negative, neutral} x {frozen, free}")
         ck.count("swap populations evaluated")
     ck.sample({"index_sets": {k: _fmt_cells(v) for k, v in sorted(env.items())}})
+    ck.attempt(_sample_nonempty, ck, prog, f, construct, sorted(env))
+
+
+def _sample_nonempty(ck, prog, f, construct, setnames):
+    """SAMPLE-nonempty ("the swaps succeed for every sequence"): random.sample raises ValueError on an empty population.  The part of the move
+    after the index sets are built is enumerated path by path with the three set sizes as integer atoms and every outcome of the draw of the two
+    charge types; on each path every sampled population must be non-empty (exact linear feasibility)."""
+    from lcsa.sym import Evaluator, Path, ObjV, FieldListV, _Frame, fmt_conds
+    from lcsa.dt import feasible_with
+    from lcsa.lin import Lin
+    from lcsa.alg import Rat
+    import itertools
+    body = f.body()
+    start = None
+    for i, st in enumerate(body):
+        if isinstance(st, ast.If) and any(isinstance(n, ast.Call) and getattr(n.func, "id", "") == "len" and n.args and isinstance(n.args[0], ast.Name) and n.args[0].id in setnames
+                                          for n in ast.walk(st.test)):
+            start = i
+            break
+    ck.shape(start is not None, "swapRandChargeRes: a cascade on the sizes of the index sets after they are built", f.loc())
+    draws = [n for n in ast.walk(f.node) if isinstance(n, ast.Call) and getattr(n.func, "attr", "") == "sample" and n.args and isinstance(n.args[0], (ast.List, ast.Tuple))]
+    ck.shape(len(draws) <= 1, "swapRandChargeRes: at most one draw of the charge types from a literal list", f.loc())
+    outcomes = [None]
+    if draws:
+        pool = [e.value for e in draws[0].args[0].elts if isinstance(e, ast.Constant)]
+        k = draws[0].args[1].value if len(draws[0].args) > 1 and isinstance(draws[0].args[1], ast.Constant) else None
+        ck.shape(len(pool) == len(draws[0].args[0].elts) and isinstance(k, int), "swapRandChargeRes: rand.sample(<literal list>, <literal k>)", f.loc(draws[0]))
+        outcomes = [list(c) for c in itertools.permutations(pool, k)]
+    bad = []
+    npaths = 0
+    for oc in outcomes:
+        ev = Evaluator(prog, positive=())
+        ev.skip_calls = {"status_message", "warning_message", "print"}
+        ev.opaque_calls[SEQ + ":Sequence.swapRes"] = lambda b: "SWAPPED"
+
+        def sample(node, args, oc=oc):
+            if isinstance(args[0], FieldListV):
+                return [("drawn-from", args[0].name)]
+            if isinstance(args[0], list) and oc is not None:
+                return [Rat.const(x) for x in oc]
+            raise Undecided("rand.sample of %r" % (args[0],), f.loc(node))
+        ev.extern_calls["rand.sample"] = sample
+        ev.extern_calls["random.sample"] = sample
+        env = {"self": ObjV("Sequence"), "rand": "RNG"}
+        for nme in setnames:
+            env[nme] = FieldListV(nme)
+        for p in f.params()[1:]:
+            env.setdefault(p, FieldListV(p))
+        paths = ev.exec_block(body[start:], [Path([], "live", None, env)], _Frame(f, 0))
+        dom = [Lin({"len(%s)" % nme: -1}, 0, "<=") for nme in setnames]
+        ints = {"len(%s)" % nme for nme in setnames}
+        for p in paths:
+            if feasible_with(p.conds, dom, set(), int_atoms=ints) is None:
+                continue
+            npaths += 1
+            drawn = {v[0][1] for v in p.env.values() if isinstance(v, list) and v and isinstance(v[0], tuple) and v[0][0] == "drawn-from"}
+            for nme in sorted(drawn):
+                w = feasible_with(list(p.conds) + [("cmp", Rat.atom("len(%s)" % nme), "==", Rat.const(0))], dom, set(), int_atoms=ints)
+                if w is not None:
+                    bad.append({"population": nme, "can_be_empty_when": fmt_conds(p.conds)[:200], "charge_types_drawn": oc})
+    ck.shape(npaths > 0, "swapRandChargeRes: feasible paths through the draw", f.loc())
+    ck.ob("SAMPLE-nonempty", construct, not bad, expected="every population a swap partner is drawn from is non-empty on the path that draws from it",
+          found=bad[:3] or "%d feasible paths, none draws from an empty set" % npaths, slot="empty-population", where=f.loc(),
+          note="random.sample([], 1) raises ValueError: the move would fail instead of answering 'nothing to swap'")
+    ck.count("swap paths enumerated", npaths)
 
 
 def _api(ck, prog, E):
